@@ -237,7 +237,20 @@ Record c12_ini_result := C12IniResult { c12_ir_tree : c12_tree; c12_ir_status : 
    rtrim(ltrim(lhs)) to the not yet unquoted ltrim(rhs) *)
 Inductive c12_line_kind := C12Skip | C12Prefix (p : c12_str) | C12Assign (key value0 : c12_str).
 
-Definition c12_classify (line0 : c12_str) : c12_line_kind :=
+(* the repaired comment search (fixes/C12-3.patch): behind  key = <quote>  a '#' starts the comment only
+   if the text before it (right-trimmed) ends with the closing quote; [acc] = text read since the opening quote *)
+Fixpoint c12_cut_qcomment (q : ascii) (acc s : c12_str) : c12_str :=
+  match s with
+  | [] => acc
+  | c :: r =>
+    if Ascii.eqb c "#" && match c12_last_opt (c12_rtrim acc) with Some x => Ascii.eqb x q | None => false end
+    then acc else c12_cut_qcomment q (acc ++ [c]) r
+  end.
+
+(* [qhash = false]: the code as found -- the line is cut at its first '#' before quotes are looked at
+   (F-C12-3: a quoted value containing '#' on its first line is cut there and swallows the following lines);
+   [qhash = true]: with fixes/C12-3.patch *)
+Definition c12_classify (qhash : bool) (line0 : c12_str) : c12_line_kind :=
   let line := c12_ltrim line0 in
   match line with
   | [] => C12Skip
@@ -253,7 +266,19 @@ Definition c12_classify (line0 : c12_str) : c12_line_kind :=
     else
       match c12_split_at "=" (c12_before "#" line) with
       | None => C12Skip
-      | Some (lhs, rhs) => C12Assign (c12_rtrim (c12_ltrim lhs)) (c12_ltrim rhs)
+      | Some (lhs, rhs) =>
+        let key := c12_rtrim (c12_ltrim lhs) in
+        if qhash then
+          match c12_split_at "=" line with
+          | Some (_, rhs_full) =>
+            match c12_ltrim rhs_full with
+            | q :: v1 => if c12_is_quote q then C12Assign key (q :: c12_cut_qcomment q [] v1)
+                         else C12Assign key (c12_ltrim rhs)
+            | [] => C12Assign key (c12_ltrim rhs)
+            end
+          | None => C12Assign key (c12_ltrim rhs)
+          end
+        else C12Assign key (c12_ltrim rhs)
       end
   end.
 
@@ -288,7 +313,7 @@ Definition c12_store (pt : c12_tree) (seen : list c12_str) (ow : bool) (key valu
       if ok then inl (pt', key :: seen) else inr (pt', C12RangeError)
     end.
 
-Fixpoint c12_ini_loop (fuel : nat) (lines : list c12_str) (pt : c12_tree) (prefix : c12_str)
+Fixpoint c12_ini_loop (qhash : bool) (fuel : nat) (lines : list c12_str) (pt : c12_tree) (prefix : c12_str)
          (seen : list c12_str) (ow : bool) (ub : bool) : c12_ini_result :=
   match fuel with
   | O => C12IniResult pt C12OutOfFuel ub
@@ -296,13 +321,13 @@ Fixpoint c12_ini_loop (fuel : nat) (lines : list c12_str) (pt : c12_tree) (prefi
     match lines with
     | [] => C12IniResult pt C12Ok ub
     | line0 :: rest =>
-      match c12_classify line0 with
-      | C12Skip => c12_ini_loop fuel' rest pt prefix seen ow ub
-      | C12Prefix p => c12_ini_loop fuel' rest pt p seen ow ub
+      match c12_classify qhash line0 with
+      | C12Skip => c12_ini_loop qhash fuel' rest pt prefix seen ow ub
+      | C12Prefix p => c12_ini_loop qhash fuel' rest pt p seen ow ub
       | C12Assign k value0 =>
         let '(value, rest', ub') := c12_value value0 rest ub in
         match c12_store pt seen ow (prefix ++ k) value with
-        | inl (pt', seen') => c12_ini_loop fuel' rest' pt' prefix seen' ow ub'
+        | inl (pt', seen') => c12_ini_loop qhash fuel' rest' pt' prefix seen' ow ub'
         | inr (pt', st) => C12IniResult pt' st ub'
         end
       end
@@ -320,11 +345,11 @@ Fixpoint c12_lines (s : c12_str) : list c12_str :=
                    end
   end.
 
-Definition c12_parse_ini_lines (lines : list c12_str) (pt : c12_tree) (ow : bool) : c12_ini_result :=
-  c12_ini_loop (S (length lines)) lines pt [] [] ow false.
+Definition c12_parse_ini_lines (qhash : bool) (lines : list c12_str) (pt : c12_tree) (ow : bool) : c12_ini_result :=
+  c12_ini_loop qhash (S (length lines)) lines pt [] [] ow false.
 
-Definition c12_parse_ini (doc : c12_str) (pt : c12_tree) (ow : bool) : c12_ini_result :=
-  c12_parse_ini_lines (c12_lines doc) pt ow.
+Definition c12_parse_ini (qhash : bool) (doc : c12_str) (pt : c12_tree) (ow : bool) : c12_ini_result :=
+  c12_parse_ini_lines qhash (c12_lines doc) pt ow.
 
 (* ---------------------------------------------------------------- 4. command line *)
 
